@@ -343,28 +343,66 @@ Definition lookup (asg : list content) (late : list (N * content)) (k : N) : opt
    that session id is then answered by the UNDERLAY (underlay_packet.go, "Session is not registered") with a stateless
    closeSessionRequest whose sequence field merely echoes the peer's unAckSeq - it is not a sequence number assigned
    by a session (the receiver handles close requests without looking at it).  Those replies are not checked. *)
-Record ls1 := mkL1 { l_tab : list (N * content); l_flag : bool; l_chk : list dg }.
+Record ls1 := mkL1 {
+  l_tab : list (N * content);     (* bindings of numbers first seen after Close *)
+  l_flag : bool;                  (* this endpoint has emitted a close segment of its own *)
+  l_chk : list dg;                (* ghost: the emissions whose content was checked, newest first *)
+  l_emit : list dg;               (* every datagram this endpoint emitted after Close, in order *)
+  l_nr : N;                       (* most optimistic nextRecv (continues e_nr) *)
+  l_buf : list N                  (* delivered sequenced numbers >= l_nr *)
+}.
 Record lst := mkL { l_c : ls1; l_s : ls1 }.
 Definition getL (X : bool) (l : lst) : ls1 := if X then l_s l else l_c l.
 Definition setL (X : bool) (v : ls1) (l : lst) : lst := if X then mkL (l_c l) v else mkL v (l_s l).
-Definition l0 : lst := mkL (mkL1 [] false []) (mkL1 [] false []).
+Definition late_init1 (x : ep) : ls1 :=
+  mkL1 [] false [] [] (N.of_nat (e_nr x)) (map (fun e => N.of_nat (fst e)) (e_rbuf x)).
+(* a = the acceptor state at Close *)
+Definition late_init (a : ast) : lst := mkL (late_init1 (a_c a)) (late_init1 (a_s a)).
 Definition ty_close_req : N := tyN C02_ProtoCloseSessionRequest.
 Definition is_close (ty : N) : bool := N.eqb ty ty_close_req || N.eqb ty (tyN C02_ProtoCloseSessionResponse).
+Fixpoint adv (fuel : nat) (nr : N) (buf : list N) : N :=
+  match fuel with
+  | O => nr
+  | S f => if existsb (N.eqb nr) buf then adv f (N.succ nr) buf else nr
+  end.
 
-(* a = the acceptor state at Close *)
 Definition late_step (a : ast) (l : lst) (e : event) : option lst :=
   match e with
   | ES X g =>
       let x := getL X l in
-      if is_seq X (g_ty g) then
-        if l_flag x && N.eqb (g_ty g) ty_close_req then Some l
+      (* acks stay safe while closing: never ahead of what has been delivered in order *)
+      if negb (N.leb (g_unack g) (l_nr x)) then None
+      else if is_seq X (g_ty g) then
+        if l_flag x && N.eqb (g_ty g) ty_close_req then
+          (* stateless reply of the underlay for a session it no longer has: seq echoes the peer's unAckSeq; accepted as
+             the code emits it, not bound (see C13_seq_reuse_after_close_refuted) *)
+          Some (setL X (mkL1 (l_tab x) (l_flag x) (l_chk x) (l_emit x ++ [g]) (l_nr x) (l_buf x)) l)
         else
           let fl := l_flag x || is_close (g_ty g) in
           match lookup (e_asg (getE X a)) (l_tab x) (g_seq g) with
-          | Some c => if content_eqb c (cont g) then Some (setL X (mkL1 (l_tab x) fl (g :: l_chk x)) l) else None
-          | None => Some (setL X (mkL1 ((g_seq g, cont g) :: l_tab x) fl (g :: l_chk x)) l)
+          | Some c => if content_eqb c (cont g)
+                      then Some (setL X (mkL1 (l_tab x) fl (g :: l_chk x) (l_emit x ++ [g]) (l_nr x) (l_buf x)) l)
+                      else None
+          | None => Some (setL X (mkL1 ((g_seq g, cont g) :: l_tab x) fl (g :: l_chk x) (l_emit x ++ [g]) (l_nr x) (l_buf x)) l)
           end
-      else if is_ack X (g_ty g) then Some l else None
+      else if is_ack X (g_ty g)
+      then Some (setL X (mkL1 (l_tab x) (l_flag x) (l_chk x) (l_emit x ++ [g]) (l_nr x) (l_buf x)) l)
+      else None
+  | ER X k =>
+      let x := getL X l in
+      let pre_emit := e_emit (getE (negb X) a) in
+      let post_emit := l_emit (getL (negb X) l) in
+      let np := length pre_emit in
+      if N.ltb k (N.of_nat (np + length post_emit)) then
+        match (if N.ltb k (N.of_nat np) then nth_error pre_emit (N.to_nat k) else nth_error post_emit (N.to_nat k - np)) with
+        | None => None
+        | Some g =>
+            if is_seq (negb X) (g_ty g) then
+              let buf := g_seq g :: l_buf x in
+              Some (setL X (mkL1 (l_tab x) (l_flag x) (l_chk x) (l_emit x) (adv (S (length buf)) (l_nr x) buf) buf) l)
+            else Some l
+        end
+      else None
   | _ => Some l
   end.
 Fixpoint late_run (a : ast) (l : lst) (post : list event) : option lst :=
@@ -374,10 +412,10 @@ Fixpoint late_run (a : ast) (l : lst) (post : list event) : option lst :=
   end.
 (* the whole recorded session: [pre] accepted by the acceptor, [post] consistent with it *)
 Definition late_final (pre post : list event) : option lst :=
-  match accept pre with inl a => late_run a l0 post | inr _ => None end.
+  match accept pre with inl a => late_run a (late_init a) post | inr _ => None end.
 Definition accept_closed (pre post : list event) : bool :=
   match accept pre with
-  | inl a => match late_run a l0 post with Some _ => true | None => false end
+  | inl a => match late_run a (late_init a) post with Some _ => true | None => false end
   | inr _ => false
   end.
 
@@ -478,3 +516,30 @@ Definition input_data (r : rcv) (d : nat * content) : rcv * in_outcome :=
 Definition input_data_nocheck (r : rcv) (d : nat * content) : rcv * in_outcome := input_body r d.
 (* Read takes one segment from recvQueue *)
 Definition app_take (r : rcv) : rcv := mkR (r_next r) (r_buf r) (Nat.pred (r_queue r)).
+
+(* ------------------------------------------------------------------------------------------------ *)
+(* Part 1d. Numbering under partial Writes.  writeChunk numbers fragment after fragment - seq := nextSend.Load();
+   ...; nextSend.Add(1) inside the loop - and the loop may stop early (write deadline passed, session closed, output
+   error) after k of the n fragments; a timed-out Write does not end the session.  [queue_frags ns cs k]: the new
+   counter and the segments queued when the loop over the fragments cs stops after k of them. *)
+Fixpoint queue_frags (ns : nat) (cs : list content) (k : nat) : nat * list (nat * content) :=
+  match k, cs with
+  | S k', c :: cs' => let '(ns', q) := queue_frags (S ns) cs' k' in (ns', (ns, c) :: q)
+  | _, _ => (ns, [])
+  end.
+(* a history of Writes of one session: (fragments, how many of them were queued) *)
+Fixpoint write_all (ns : nat) (ops : list (list content * nat)) : nat * list (nat * content) :=
+  match ops with
+  | [] => (ns, [])
+  | (cs, k) :: t => let '(ns1, q1) := queue_frags ns cs k in
+                    let '(ns2, q2) := write_all ns1 t in (ns2, q1 ++ q2)
+  end.
+(* the variant that reserves the numbers of ALL fragments before the loop: nextSend.Add(n) up front *)
+Definition queue_frags_reserve (ns : nat) (cs : list content) (k : nat) : nat * list (nat * content) :=
+  (ns + length cs, snd (queue_frags ns cs k)).
+Fixpoint write_all_reserve (ns : nat) (ops : list (list content * nat)) : nat * list (nat * content) :=
+  match ops with
+  | [] => (ns, [])
+  | (cs, k) :: t => let '(ns1, q1) := queue_frags_reserve ns cs k in
+                    let '(ns2, q2) := write_all_reserve ns1 t in (ns2, q1 ++ q2)
+  end.
